@@ -213,6 +213,33 @@ SEARCHES = {'lazy_parallel_map': search_lazy_parallel_map_prop,
             'single_thread_prefetch': search_single_thread_prefetch_prop}
 
 
+def _shuffle_search(rep):
+    from harness import shuffle_standin
+    if 'random_choice' in rep.get('obligation', ''):
+        c, f = shuffle_standin.search_random_choice()
+    else:
+        c, f = shuffle_standin.search('thorough')
+    if f:
+        return {'reproduced': True, 'cases_searched': c, 'class': 'shuffle', 'scenario': f[0]['scenario'],
+                'mismatches': f[0]['mismatches']}
+    return {'reproduced': False, 'cases_searched': c, 'class': 'shuffle'}
+
+
+def _bucket_search(rep):
+    from harness import bucket_standin
+    c, f = bucket_standin.search('quick')
+    if f:
+        return {'reproduced': True, 'cases_searched': c, 'class': 'bucket', 'scenario': f[0]['scenario'],
+                'mismatches': f[0]['mismatches']}
+    return {'reproduced': False, 'cases_searched': c, 'class': 'bucket'}
+
+
+for _k in ('random_choice', 'shuffle', 'ReShuffleDataset', 'LocalShuffleDataset', 'ApplyDataset', 'tile'):
+    SEARCHES[_k] = _shuffle_search
+for _k in ('DynamicTimeSeriesBucket', 'DynamicBucket', 'DynamicBucketDataset'):
+    SEARCHES[_k] = _bucket_search
+
+
 def search(cls, meth, rep):
     f = SEARCHES.get(meth) or SEARCHES.get(cls)
     if f is None:
